@@ -245,3 +245,41 @@ def t_index_init():
     from pyvc.src import get_src
     src = get_src()
     return {"obligations": st.obl, "info": [{"function": "IndexMarket.__init__", "source_sha": src.source_hash("IndexMarket.__init__"), "where": src.where("IndexMarket.__init__"), "paths": n, "assumptions": sorted(ex.used_assumptions)}]}
+
+
+# ----------------------------------------------------------------------------- get_fundamental_index: the index market's own recorded fundamental value, for the caller's time (C17, C06)
+@task("IndexMarket.get_fundamental_index", props=["C17", "C06"], functions=["IndexMarket.get_fundamental_index"], replay="index")
+def t_get_fundamental_index():
+    """delegates to this market's own get_fundamental_price with the caller's time argument (the recorded value, which `Simulator._update_time_on_market` computes from the components)"""
+    from pyvc.spec import Executor
+    ex = Executor(current="IndexMarket.get_fundamental_index")
+
+    def h(ex_, st, recv, pos, kw, node):
+        st = st.copy()
+        a = dict(zip(("time",), pos)); a.update(kw)
+        st.ghost["calls"] = st.ghost.get("calls", ()) + ((recv, a),)
+        return [(st, fresh(("real",), "recorded"))]
+    ex.specs[("m", "Market", "get_fundamental_price")] = h
+    ex.specs[("m", "IndexMarket", "get_fundamental_price")] = h
+    st = State(); st.labels = ["IndexMarket.get_fundamental_index"]
+    m = sym_obj("IndexMarket", "the_index"); st.assume_alloc(m)
+    targ = V(("opt", ("int",)), z3.Int("time_arg"), none=z3.Bool("time_arg?"))
+    outs = ex.call_method(m, "get_fundamental_index", [], {"time": targ}, st, 0, None)
+    n = 0
+    for s1, res in outs:
+        n += 1
+        cs = s1.ghost.get("calls", ())
+        if len(cs) != 1:
+            s1.oblige(f"trace:exactly one query of the recorded series (got {len(cs)})", z3.BoolVal(False), "trace"); continue
+        recv, a = cs[0]
+        t = a.get("time")
+        s1.oblige("post:C17 the fundamental index is this market's own recorded fundamental value at the requested time",
+                  z3.And(recv.term == m.term, z3.BoolVal(t is not None) if t is None else z3.And(t.none == targ.none, z3.Implies(z3.Not(targ.none), t.term == targ.term))), "post")
+    for s_, k_, v_ in ex.escaped:
+        s_.oblige(f"no-raise:{v_[0]}@{v_[1]}", z3.BoolVal(False), "no-raise")
+    obl = st.obl
+    obl.append({"name": "IndexMarket.get_fundamental_index/cover:paths", "pc": [], "goal": z3.BoolVal(n >= 1), "kind": "cover"})
+    src = get_src()
+    info = {"function": "IndexMarket.get_fundamental_index", "source_sha": src.source_hash("IndexMarket.get_fundamental_index"), "where": src.where("IndexMarket.get_fundamental_index"), "paths": n,
+            "assumptions": sorted(ex.used_assumptions)}
+    return {"obligations": obl, "info": [info]}
